@@ -11,10 +11,13 @@
 static void wf_tables(void) {
 	int k;
 	for (k = 0; k <= C05_W; k++) {
-		g_tab[k].type = (KSI_RuleType)nondet_int(); g_tab[k].rule = (const void *)nondet_ptr();    /* arbitrary contents */
+		g_tab[k].type = (KSI_RuleType)nondet_int();                                              /* arbitrary contents */
 		__CPROVER_assume(g_tab[k].type == KSI_RULE_TYPE_BASIC || g_tab[k].type == KSI_RULE_TYPE_COMPOSITE_AND || g_tab[k].type == KSI_RULE_TYPE_COMPOSITE_OR);
-		/* element k: absent (sentinel), the k-th basic stub, or a composite whose list is &g_sub[k] */
-		__CPROVER_assume(g_tab[k].rule == NULL || (g_tab[k].type == KSI_RULE_TYPE_BASIC ? (k < C05_W && g_tab[k].rule == (const void *)c05l_stub[k < C05_W ? k : 0]) : g_tab[k].rule == (const void *)&g_sub[k]));
+		/* element k: absent (sentinel), the k-th basic stub, or a composite whose list is &g_sub[k].  Built by ASSIGNMENT, not by an assumed
+		 * equality on a nondet pointer: CBMC dereferences through the value set, which an assumption does not extend. */
+		if (k == C05_W || nondet_bool()) g_tab[k].rule = NULL;
+		else if (g_tab[k].type == KSI_RULE_TYPE_BASIC) g_tab[k].rule = (const void *)c05l_stub[k];
+		else g_tab[k].rule = (const void *)&g_sub[k];
 		g_sub[k].type = KSI_RULE_TYPE_BASIC; g_sub[k].rule = k < C05_W ? (const void *)c05l_stub[k] : NULL;      /* sub-lists are non-empty; their contents are never read (contract) */
 	}
 	__CPROVER_assume(g_tab[C05_W].rule == NULL);     /* sentinel */
